@@ -7,10 +7,9 @@ CONSTANTS
   LVals = {0, 1, 2, 3, 4}
   ForbSets = {{}}
   PV = {1, 3}
-  MinV = {1, 3}
+  MinV = {3}
   MaxV = {1, 3}
-  LA = {1, 3}
-  LB = {1, 3}
+  Pairs = {13, 31, 33}
   Depth = 5
 CONSTRAINT Bound
 INVARIANT Emit1
